@@ -58,8 +58,8 @@ Quiet == todo = <<>>
 RECURSIVE ExitOf(_)
 ExitOf(i) == IF i > Len(TraceLog) THEN [kinds |-> <<>>, temps |-> <<>>]
              ELSE IF TraceLog[i].ev = "exit" THEN TraceLog[i] ELSE ExitOf(i + 1)
-LeftBehind(k) == LET x == ExitOf(l) IN \/ \E i \in 1..Len(x.kinds) : x.kinds[i] = k
-                                        \/ \E j \in 1..Len(x.temps) : x.temps[j] \in {k, "none"}
+LeftBehind(k) == LET x == ExitOf(l)
+                 IN (\E i \in 1..Len(x.kinds) : x.kinds[i] = k) \/ (\E j \in 1..Len(x.temps) : x.temps[j] \in {k, "none"})
 
 (* a module step that writes to the terminal or is driven by fzf's own timer.  A step that writes is taken when the  *)
 (* first thing it writes is the next thing in the stream (the stream decides; nothing is guessed ahead of it).       *)
